@@ -44,13 +44,13 @@ type c04Model struct {
 }
 
 func (s c04Spec) newState() eng.SeqState {
-	w := model.NewWorld(model.Config{Cols: []model.ColDef{{Name: "n", Kind: s.kind}, {Name: "s", Kind: "string"}, {Name: "b", Kind: "bool"}}})
+	w := model.NewWorld(model.Config{Cols: []model.ColDef{{Name: "n", Kind: s.kind}, {Name: "s", Kind: "string"}, {Name: "b", Kind: "bool"}, {Name: "e", Kind: "enum"}}})
 	k := model.Kinds[s.kind]
 	// index A on n (as integer > 1), index B on s
 	w.C.CreateIndex("A", "n", func(r column.Reader) bool { return readerInt(k, r) > 1 })
 	w.M.Indexes = append(w.M.Indexes, &model.IndexDef{Name: "A", Col: "n", Pred: func(v model.Val) bool { return k.AsInt(v) > 1 }})
 	w.CreateIndex("s=a")
-	applyPreset(w, s.preset, []model.Write{{Col: "n", V: k.Values[0]}, {Col: "s", V: model.Val{S: "a"}}})
+	applyPreset(w, s.preset, []model.Write{{Col: "n", V: k.Values[0]}, {Col: "s", V: model.Val{S: "a"}}, {Col: "e", V: model.Val{S: "x"}}})
 	return &worldState{w: w, ops: s.ops, check: s.check}
 }
 
@@ -75,8 +75,8 @@ func (s c04Spec) ops(w *model.World) (out []opx) {
 	k := model.Kinds[s.kind]
 	v := k.Values
 	out = append(out,
-		txnOp(w, []model.Act{{Op: "insert", W: []model.Write{{Col: "n", V: v[0]}, {Col: "s", V: model.Val{S: "a"}}, {Col: "b", V: model.Val{N: 1}}}}}, false),
-		txnOp(w, []model.Act{{Op: "insert", W: []model.Write{{Col: "n", V: v[1%len(v)]}, {Col: "s", V: model.Val{S: "b"}}}}}, false),
+		txnOp(w, []model.Act{{Op: "insert", W: []model.Write{{Col: "n", V: v[0]}, {Col: "s", V: model.Val{S: "a"}}, {Col: "b", V: model.Val{N: 1}}, {Col: "e", V: model.Val{S: "x"}}}}}, false),
+		txnOp(w, []model.Act{{Op: "insert", W: []model.Write{{Col: "n", V: v[1%len(v)]}, {Col: "s", V: model.Val{S: "b"}}, {Col: "e", V: model.Val{S: "y"}}}}}, false),
 		txnOp(w, []model.Act{{Op: "insert", W: []model.Write{{Col: "s", V: model.Val{S: "a"}}}}}, false),
 		txnOp(w, []model.Act{{Op: "insert"}}, false),
 	)
@@ -240,9 +240,30 @@ func (s c04Spec) filters(k *model.KindDesc) []c04Filter {
 				}
 				return out, true
 			}},
+		c04Filter{name: "WithString(e,=x)", apply: func(t *column.Txn) { t.WithString("e", func(v string) bool { return v == "x" }) },
+			eval: func(m *c04Model, sel map[uint32]bool, first bool) (map[uint32]bool, bool) {
+				return sval(m, sel, "e", func(v string) bool { return v == "x" }), true
+			}},
+		c04Filter{name: "WithString(e,!=x)", apply: func(t *column.Txn) { t.WithString("e", func(v string) bool { return v != "x" }) },
+			eval: func(m *c04Model, sel map[uint32]bool, first bool) (map[uint32]bool, bool) {
+				return sval(m, sel, "e", func(v string) bool { return v != "x" }), true
+			}},
 		c04Filter{name: "WithString(n)", apply: func(t *column.Txn) { t.WithString("n", func(v string) bool { return true }) }, eval: empty},
 	)
 	return fs
+}
+
+// sval: rows of sel holding a string value in col that satisfies pred.
+func sval(m *c04Model, sel map[uint32]bool, col string, pred func(string) bool) map[uint32]bool {
+	out := map[uint32]bool{}
+	for o := range sel {
+		if r := m.w.M.Live[o]; r != nil {
+			if v, ok := r.V[col]; ok && pred(v.S) {
+				out[o] = true
+			}
+		}
+	}
+	return out
 }
 
 func (s c04Spec) check(w *model.World) (vs []eng.Violation) {
@@ -449,7 +470,7 @@ func init() {
 		Prop:  "C04",
 		Level: "model_checking",
 		Rule: "layouts = every history up to depth d1 over {insert full / partial / without the filtered column / empty, overwrite, delete first / last row (offset reuse)} on presets " +
-			"{empty, word-edge, block-edge, sparse-3}; at every layout EVERY filter chain up to length L over 35 filter steps (With/Without/Union x {index A, index B, value column, " +
+			"{empty, word-edge, block-edge, sparse-3}; at every layout EVERY filter chain up to length L over 37 filter steps (With/Without/Union x {index A, index B, value column, " +
 			"bool column, string column, missing name}, WithUnion pairs and singles, WithValue/WithInt/WithUint/WithFloat/WithString incl. wrong-type and missing columns) is run on a real " +
 			"transaction and compared with set algebra on the model: selection, Count, Range order/cursor/readers, Sum/Avg/Min/Max over the selected rows holding a value; per numeric kind",
 		Assumptions: []string{
@@ -459,9 +480,9 @@ func init() {
 		Budget: budget(170*time.Second, 28*time.Minute),
 		Bounds: func(tier string) map[string]any {
 			if tier == "quick" {
-				return map[string]any{"d1": "3 (empty), 2 (sparse-3, word-edge), 1 (block-edge)", "L": "2 (all kinds), 3 (int, d1=2), 1 (block-edge)", "filter_steps": 35}
+				return map[string]any{"d1": "3 (empty), 2 (sparse-3, word-edge), 1 (block-edge)", "L": "2 (all kinds), 3 (int, d1=2), 1 (block-edge)", "filter_steps": 37}
 			}
-			return map[string]any{"d1": 3, "L": "3 (int on empty/sparse-3), 2 (other kinds), 1 (block-edge)", "filter_steps": 35}
+			return map[string]any{"d1": 3, "L": "3 (int on empty/sparse-3), 2 (other kinds), 1 (block-edge)", "filter_steps": 37}
 		},
 		Units: func(tier string) (units []eng.Unit) {
 			var specs []c04Spec
